@@ -283,6 +283,13 @@ pub fn c10(ctx: &Ctx, rep: &mut Report) {
                 } else {
                     expect_cli(rep, "replay", "fml run", &run, &out, r, "replay");
                 }
+                if r.get("rejected").and_then(|x| x.as_bool()) == Some(false) && r.get("placement").is_some() {
+                    if let Ok(text) = std::fs::read_to_string(&f) {
+                        if real::parse(&text).is_err() {
+                            rep.violation("C10:placement-refused", format!("{}: the documented grammar admits it, the parser rejects it", r.get("placement").and_then(|p| p.as_str()).unwrap_or("")), r.clone());
+                        }
+                    }
+                }
                 if r.get("rejected").and_then(|x| x.as_bool()) == Some(true) && crash_ok(&run) && (run.success() || !run.stdout.is_empty()) {
                     rep.violation("C10:invalid-source-not-rejected", format!("invalid source is not rejected cleanly: {}", run.describe()), r.clone());
                 }
@@ -388,6 +395,111 @@ pub fn c10(ctx: &Ctx, rep: &mut Report) {
                         format!("invalid source {:?} is not rejected: `fml run` {}: {}", bad, if run.success() { "exits 0" } else { "prints to stdout" }, run.describe()),
                         replay,
                     );
+                }
+            }
+        }
+    }
+    // (2b) placement matrix: which statement forms the documented grammar admits where. Function
+    // definitions only at the top level and as object members, operator definitions only as members,
+    // members only `let` / method / operator, every other form wherever an expression may stand.
+    // Everything else is invalid source and must be rejected as a whole.
+    let forms: [(&str, &str); 15] = [
+        ("function", "function zf(q) -> q"),
+        ("operator", "function +(q) -> q"),
+        ("function-print", "function print(q) -> q"),
+        ("let", "let zv = 1"),
+        ("assign-variable", "g <- 2"),
+        ("assign-field", "o.f <- 2"),
+        ("assign-element", "a[0] <- 2"),
+        ("print", "print(\"p\")"),
+        ("object", "object begin end"),
+        ("if-else", "if true then 1 else 2"),
+        ("if", "if true then 1"),
+        ("while", "while false do 1"),
+        ("operation", "1 + 2"),
+        ("call", "h(1)"),
+        ("block", "begin 1 end"),
+    ];
+    let positions: [(&str, &str); 27] = [
+        ("top", "X"),
+        ("top-middle", "1; X; 2"),
+        ("block", "begin 1; X; 2 end"),
+        ("block-only", "begin X end"),
+        ("member", "object begin X end"),
+        ("member-middle", "object begin let m1 = 1; X; let m2 = 2 end"),
+        ("function-body", "function w() -> X"),
+        ("method-body", "object begin function w() -> X end"),
+        ("parentheses", "(X)"),
+        ("argument", "h(X)"),
+        ("second-argument", "h2(1, X)"),
+        ("array-size", "array(X, 0)"),
+        ("array-initializer", "array(1, X)"),
+        ("condition", "if X then 1 else 2"),
+        ("then-branch", "if true then X else 2"),
+        ("else-branch", "if true then 1 else X"),
+        ("loop-condition", "while X do 1"),
+        ("loop-body", "while false do X"),
+        ("let-value", "let r = X"),
+        ("print-argument", "print(\"~\", X)"),
+        ("parent", "object extends X begin end"),
+        ("index", "a[X]"),
+        ("assigned-variable-value", "g <- X"),
+        ("assigned-field-value", "o.f <- X"),
+        ("assigned-element-value", "a[0] <- X"),
+        ("right-operand", "1 + X"),
+        ("method-argument", "o.m(X)"),
+    ];
+    for (fname, form) in forms.iter() {
+        for (pname, pos) in positions.iter() {
+            k += 1;
+            if !ctx.mine(k) {
+                continue;
+            }
+            let is_def = fname.starts_with("function") || *fname == "operator";
+            let expect_ok = match *pname {
+                "top" | "top-middle" => *fname != "operator",
+                "member" | "member-middle" => is_def || *fname == "let",
+                // an operand must be a call, a block, a literal … : only the definitions are pinned here
+                "right-operand" => {
+                    if is_def {
+                        false
+                    } else {
+                        continue;
+                    }
+                }
+                _ => !is_def,
+            };
+            let body = pos.replacen('X', form, 1);
+            let src = format!("print(\"must not run\\n\");\nlet g = 0; let o = object begin let f = 0; function m(p) -> p end; let a = array(2, 0);\nfunction h(p) -> p; function h2(p, r) -> p;\n{};\nprint(\"end\\n\");\n", body);
+            rep.evaluations += 1;
+            rep.conclusive += 1;
+            rep.bump("c10-placement-matrix", if expect_ok { "admitted cells" } else { "rejected cells" });
+            let replay = json!({"check":"C10","source_b64": super::super::b64(src.as_bytes()), "rejected": !expect_ok, "placement": format!("{} as {}", fname, pname)});
+            let parsed = real::parse(&src);
+            if parsed.is_ok() != expect_ok {
+                rep.violation(
+                    if expect_ok { "C10:placement-refused" } else { "C10:invalid-source-not-rejected" },
+                    format!("`{}` ({} in position {}): the documented grammar {} it, the parser {}", body, fname, pname, if expect_ok { "admits" } else { "does not admit" }, if parsed.is_ok() { "accepts it" } else { "rejects it" }),
+                    replay.clone(),
+                );
+                continue;
+            }
+            if !expect_ok {
+                let f = dir.join(format!("place{}.fml", k % 8));
+                if std::fs::write(&f, &src).is_err() {
+                    continue;
+                }
+                let run = if k % 3 == 0 { cli::fml_run_stdin(&src) } else { cli::fml_run_file(&f) };
+                rep.evaluations += 1;
+                if crash_freedom(rep, &format!("placement:{}@{}", fname, pname), "fml run", &run, &replay) {
+                    rep.nontrivial(hash_str(&src));
+                    if run.success() || !run.stdout.is_empty() {
+                        rep.violation(
+                            "C10:invalid-source-not-rejected",
+                            format!("`{}` ({} in position {}) is invalid source but `fml run` {}: {}", body, fname, pname, if run.success() { "exits 0" } else { "prints to stdout" }, run.describe()),
+                            replay,
+                        );
+                    }
                 }
             }
         }
@@ -615,13 +727,44 @@ impl SizeModel {
     }
 }
 
+/// Log locations whose names are unusual but perfectly legal: the CSV must appear at exactly the
+/// path that was given (relative to the working directory), whatever HOME says.
+fn odd_log_paths(tag: &str) -> Vec<std::path::PathBuf> {
+    use std::os::unix::ffi::OsStringExt;
+    let os = |b: &[u8]| std::path::PathBuf::from(std::ffi::OsString::from_vec(b.to_vec()));
+    let t = |s: &str| format!("{}-{}", tag, s);
+    vec![
+        std::path::PathBuf::from("~").join(t("heap.csv")),
+        os(format!("{}-lat", tag).as_bytes()).join(os(b"n\xe9\xff\xfe.csv")),
+        os([t("raw").as_bytes(), b"\x80\xc3.csv"].concat().as_slice()),
+        std::path::PathBuf::from(t("sp ace dir")).join("h\u{e9} ap\u{1f600}.csv"),
+        std::path::PathBuf::from(".").join(t("dot")).join("..").join(t("dotdot.csv")),
+        std::path::PathBuf::from(t("~tilde.csv")),
+        std::path::PathBuf::from(t("$HOME")).join("${HOME}.csv"),
+        std::path::PathBuf::from(t("*glob?[x].csv")),
+        std::path::PathBuf::from(t("line\nbreak.csv")),
+        std::path::PathBuf::from(t("%s%n{}.csv")),
+        std::path::PathBuf::from(t("trailing.dot.")),
+        std::path::PathBuf::from(t("noextension")),
+        std::path::PathBuf::from(format!("{}-{}.csv", tag, "l".repeat(180))),
+        std::path::PathBuf::from(t("a")).join("b").join("c").join("d").join("e.csv"),
+    ]
+}
+
 fn run_with_log(dir: &std::path::Path, src: &str, tag: &str, subdir: bool, via_execute: bool, heap_size: Option<&str>) -> Option<(cli::CliRun, Option<String>)> {
+    run_with_log_at(dir, src, tag, subdir, via_execute, heap_size, None)
+}
+
+fn run_with_log_at(dir: &std::path::Path, src: &str, tag: &str, subdir: bool, via_execute: bool, heap_size: Option<&str>, odd: Option<&std::path::Path>) -> Option<(cli::CliRun, Option<String>)> {
     let f = dir.join(format!("{}.fml", tag));
     std::fs::write(&f, src).ok()?;
     // absolute paths, and (for some tags) paths relative to the working directory, with and
     // without a directory component
-    let relative = tag.ends_with('1') || tag.ends_with('5') || tag.ends_with('9');
-    let log_rel = if subdir { std::path::PathBuf::from(format!("{}-newdir", tag)).join("deeper").join("heap.csv") } else { std::path::PathBuf::from(format!("{}.csv", tag)) };
+    let relative = odd.is_some() || tag.ends_with('1') || tag.ends_with('5') || tag.ends_with('9');
+    let log_rel = match odd {
+        Some(p) => p.to_path_buf(),
+        None => if subdir { std::path::PathBuf::from(format!("{}-newdir", tag)).join("deeper").join("heap.csv") } else { std::path::PathBuf::from(format!("{}.csv", tag)) },
+    };
     let log = dir.join(&log_rel);
     let _ = std::fs::remove_file(&log);
     let mut args: Vec<String> = Vec::new();
@@ -636,18 +779,35 @@ fn run_with_log(dir: &std::path::Path, src: &str, tag: &str, subdir: bool, via_e
         args.push("run".into());
         args.push(f.to_str()?.into());
     }
-    args.push("--heap-log".into());
-    args.push(if relative { log_rel.to_str()?.into() } else { log.to_str()?.into() });
     if let Some(h) = heap_size {
         args.push("--heap-size".into());
         args.push(h.into());
     }
+    args.push("--heap-log".into());
     let argv: Vec<&str> = args.iter().map(|s| s.as_str()).collect();
-    let r = cli::run(cli::Spec::new(&argv).cwd(dir));
-    let text = std::fs::read_to_string(&log).ok();
+    let home = dir.join(format!("{}-home", tag));
+    let mut spec = cli::Spec::new(&argv).cwd(dir).os_arg(if relative { log_rel.as_os_str() } else { log.as_os_str() });
+    if odd.is_some() {
+        let _ = std::fs::create_dir_all(&home);
+        spec = spec.env("HOME", home.to_str()?);
+    }
+    let r = cli::run(spec);
+    let text = std::fs::read(&log).ok().map(|b| String::from_utf8_lossy(&b).into_owned());
     let _ = std::fs::remove_file(&log);
-    if subdir {
+    if subdir && odd.is_none() {
         let _ = std::fs::remove_dir_all(dir.join(format!("{}-newdir", tag)));
+    }
+    if odd.is_some() {
+        // whatever the run created for the odd name: the first path component below the scratch directory
+        let _ = std::fs::remove_dir_all(&home);
+        if let Some(first) = log_rel.components().find(|c| matches!(c, std::path::Component::Normal(_))) {
+            let top = dir.join(first.as_os_str());
+            if top.is_dir() {
+                let _ = std::fs::remove_dir_all(&top);
+            } else {
+                let _ = std::fs::remove_file(&top);
+            }
+        }
     }
     Some((r, text))
 }
@@ -741,6 +901,19 @@ pub fn c16(ctx: &Ctx, rep: &mut Report) {
                         }
                     }
                 }
+                if i % 6 == 1 {
+                    // megabyte-sized values, so that the cumulative size crosses every small
+                    // --heap-size (1, 7 MiB) in the middle of the allocation history
+                    let k = [70_000, 200_000, 600_000, 1_000_000][(i as usize / 6) % 4];
+                    if let AST::Top(ss) = &mut ast {
+                        if let Ok(AST::Top(extra)) = real::parse(&format!(
+                            "let zbig = array({k}, null); let zo = object begin let q = zbig; end; array(3, zo); let zbig2 = array({k}, 0); object begin end; let zj = 0; while zj < 4 do begin array({k} / 8, zj); object extends zo begin let w = zj; end; zj <- zj + 1 end; print(\"~ ~\\n\", zbig[{k} - 1], zbig2[0]);\n",
+                            k = k
+                        )) {
+                            ss.extend(extra);
+                        }
+                    }
+                }
                 match printer::to_source(&ast) {
                     Ok(s) => (ast, s),
                     Err(_) => continue,
@@ -751,6 +924,9 @@ pub fn c16(ctx: &Ctx, rep: &mut Report) {
         if !out.judged() || out.order_hazard.is_some() {
             rep.skip(res_name(&out.res));
             continue;
+        }
+        if out.allocs.iter().any(|a| matches!(a, Alloc::Array(n) if *n >= 70_000)) {
+            rep.bump("c16-allocations", "programs allocating more than 1 MiB");
         }
         let replay = json!({"check":"C16","src":src});
         let tag = format!("p{}", i % 32);
@@ -815,11 +991,19 @@ pub fn c16(ctx: &Ctx, rep: &mut Report) {
                 }
             }
         }
-        for (subdir, via_execute, hs) in settings {
-            let (r, text) = match run_with_log(&dir, &src, &tag, subdir, via_execute, hs) {
+        // one more setting per program: an unusually named (relative) log location
+        let odd_paths = odd_log_paths(&tag);
+        let odd_pick = odd_paths[(i as usize) % odd_paths.len()].clone();
+        let mut settings: Vec<(bool, bool, Option<&str>, Option<std::path::PathBuf>)> = settings.into_iter().map(|(a, b, c)| (a, b, c, None)).collect();
+        settings.push((false, i % 2 == 0, if i % 3 == 0 { Some("1") } else { None }, Some(odd_pick)));
+        for (subdir, via_execute, hs, odd) in settings {
+            let (r, text) = match run_with_log_at(&dir, &src, &tag, subdir, via_execute, hs, odd.as_deref()) {
                 Some(x) => x,
                 None => continue,
             };
+            if let Some(o) = &odd {
+                rep.bump("c16-log-location", &format!("odd name #{}", odd_paths.iter().position(|p| p == o).unwrap_or(99)));
+            }
             rep.evaluations += 1;
             if r.timed_out || r.spawn_error.is_some() {
                 rep.skip("cli-watchdog");
@@ -829,8 +1013,18 @@ pub fn c16(ctx: &Ctx, rep: &mut Report) {
             rep.count("cli_runs", 1);
             rep.bump("c16-heap-size", hs.unwrap_or("(default)"));
             rep.bump("c16-entry", if via_execute { "execute" } else { "run" });
-            rep.bump("c16-log-location", if subdir { "new-directory" } else { "existing-directory" });
-            let what = format!("{} --heap-log{}{}", if via_execute { "execute" } else { "run" }, if subdir { " (new dir)" } else { "" }, hs.map(|h| format!(" --heap-size {}", h)).unwrap_or_default());
+            if odd.is_none() {
+                rep.bump("c16-log-location", if subdir { "new-directory" } else { "existing-directory" });
+            }
+            let what = format!(
+                "{} --heap-log{}{}",
+                if via_execute { "execute" } else { "run" },
+                match &odd {
+                    Some(o) => format!(" {:?}", o),
+                    None => if subdir { " (new dir)".to_string() } else { String::new() },
+                },
+                hs.map(|h| format!(" --heap-size {}", h)).unwrap_or_default()
+            );
             if r.stdout != base.stdout || r.code != base.code || r.signal != base.signal {
                 rep.violation(
                     &format!("C16:flags-change-behaviour{}", hs.map(|h| format!(":heap-size-{}", h)).unwrap_or_default()),
